@@ -6,6 +6,11 @@ V = os.path.dirname(os.path.dirname(os.path.abspath(__file__)))
 ids = sys.argv[1:] or sorted(d for d in os.listdir(os.path.join(V, "seeded")) if os.path.isdir(os.path.join(V, "seeded", d)))
 EXTRA = {"C15-3": ["C01"], "C08-2": ["C09"]}
 rows = []
+# the evidence files describe the unchanged tree: keep them out of the way while /repo is being mutated
+import shutil, tempfile
+keep = tempfile.mkdtemp(prefix="verif-evidence-")
+for f in os.listdir(os.path.join(V, "evidence")):
+    shutil.copy2(os.path.join(V, "evidence", f), keep)
 for sid in ids:
     d = os.path.join(V, "seeded", sid)
     patch = os.path.join(d, "patch.diff")
@@ -27,6 +32,9 @@ for sid in ids:
     finally:
         subprocess.run(["git", "-C", "/repo", "checkout", "--", "."], check=True)
     print(rows[-1], flush=True)
+for f in os.listdir(keep):
+    shutil.copy2(os.path.join(keep, f), os.path.join(V, "evidence", f))
+shutil.rmtree(keep, ignore_errors=True)
 with open(os.path.join(V, "seeded", "RESULTS.md"), "w") as f:
     f.write("# Seeded changes against the quick checks (tools/run_seeds.py)\n\n| seed | check | verdict | first violation line |\n|---|---|---|---|\n")
     for r in rows:
